@@ -16,8 +16,8 @@ import (
 	"time"
 
 	kv "github.com/XiXi-2024/xixi-kv"
-	"github.com/XiXi-2024/xixi-kv/index"
 	"github.com/XiXi-2024/xixi-kv/fio"
+	"github.com/XiXi-2024/xixi-kv/index"
 	"verifharness/h"
 )
 
@@ -341,7 +341,7 @@ func profDirLock(en *Env) {
 			orig, _ = os.ReadFile(dataFile)
 		}
 		en.T.Emit(h.Ev{"ev": "reset", "corrupt": false, "fresh": fresh})
-		open := map[int]bool{} // opener id -> believed open (mechanics: which close commands make sense)
+		open := map[int]bool{}       // opener id -> believed open (mechanics: which close commands make sense)
 		closedOnce := map[int]bool{} // opener id -> has a handle that it closed (in this directory)
 		race := func() {
 			// racing Opens from a barrier (one closed goroutine slot of every process)
